@@ -12,6 +12,9 @@ from . import c10, c07
 
 
 def run(ctx):
+    # contents are keyed by Substance objects: the key laws this property's bookkeeping relies on
+    from .identity import identity_discipline as _identity
+    _identity(ctx, 'C17.R1', classes=('Substance',), memoised=False)
     model = ctx.model
     fi = model.func('Container.remove')
     ff = ctx.flow('Container.remove')
